@@ -600,7 +600,7 @@ def install_data(e):
         if fire is True:
             data_case = z3.And(z(op_ret, "int") == d.opcode, c.eq(fdata, d.payload))
         else:
-            data_case = z3.And(d.fin == 1, z3.Not(mo), z(op_ret, "int") == mop, c.eq(fdata, md),
+            data_case = z3.And(d.fin == 1, z3.Not(mo), z(op_ret, "int") == mop, z3.Or(mop == 1, mop == 2), c.eq(fdata, md),
                                z3.Implies(z3.And(mop == 1, z3.Not(skip)), smt.wf_utf8(md)))
         ctl_case = z3.And(z(op_ret, "int") == d.opcode, c.eq(fdata, d.payload))
         return z3.And(
